@@ -676,7 +676,7 @@ class Exec:
             q = self.tu.globals.get(vid)
             if q is None:
                 # the declaration is not part of this dump (helper dumped by name): take the qualified spelling from the source text
-                q = self.spelled_name(n)
+                q = self.spelled_name(n) if getattr(self.tu, 'is_helper', False) else None      # other dumps: the established lookup by name
                 if q is None and getattr(self.tu, 'is_helper', False):
                     raise ExtractionError(f'{self.unit}: file-local helper refers to {rd.get("name")} without qualification: which declaration that is cannot be told from a dump by name (line {self.curline})')
                 q = q or rd.get('name')
